@@ -44,7 +44,10 @@ def _args(rng, n):
     return [('vector', rng.randint(-3, 4, size=n).astype(float)), ('column', rng.randint(-3, 4, size=(n, 1)).astype(float)),
             ('matrix', rng.randint(-3, 4, size=(n, 3)).astype(float)),
             # other real dtypes: the result is the exact product with the dense matrix, not a value cast back to the argument's dtype
-            ('integer vector', rng.randint(-3, 4, size=n)), ('float32 matrix', rng.randint(-3, 4, size=(n, 2)).astype(np.float32))]
+            ('integer vector', rng.randint(-3, 4, size=n)), ('float32 matrix', rng.randint(-3, 4, size=(n, 2)).astype(np.float32)),
+            # memory layout: strided view of a longer vector, Fortran-ordered columns
+            ('strided vector', np.repeat(rng.randint(-3, 4, size=n).astype(float), 2)[::2]),
+            ('Fortran-ordered matrix', np.asfortranarray(rng.randint(-3, 4, size=(n, 3)).astype(float)))]
 
 
 def _apply_all(op, D, rng, what, transposes=True):
